@@ -1,6 +1,7 @@
 """C05 -- requested initial conditions are what the simulation starts from."""
 import inspect
 import z3
+from fractions import Fraction
 from vlib import symx, graphs, simruns, simobl
 from vlib.symx import INF, EQ, LE, LT, AND, OR, show, lift
 from vlib.stubs import RandomStub
@@ -76,6 +77,9 @@ def configs(tier):
                 c = dict(entry=entry, family='rho', graph=g, I0=None, R0=[], full=full, zero='tau', p=0, no_transmission=True, tags=['rho', g, 'full' if full else 'plain'])
                 _bounds(entry, c, tier)
                 out.append(c)
+                if sir and g == 'P3' and entry in ('Gillespie_SIR', 'discrete_SIR', 'basic_discrete_SIR', 'percolation_based_discrete_SIR'):
+                    # rho together with initially recovered nodes (accepted by these entry points): the count is still int(round(N*rho))
+                    out.append(dict(c, R0=[0], tags=c['tags'] + ['R0']))
                 # neither rho nor initial_infecteds: documented default = one node chosen uniformly at random
                 c = dict(c, default_ic=True, tags=['rho', 'default', g, 'full' if full else 'plain'])
                 out.append(c)
@@ -302,10 +306,13 @@ def run_rho(h, cfg):
     N = r.N
     f = getattr(r.EoN, cfg['entry'])
     kw = dict(tmin=r.tmin, tmax=r.tmax, return_full_data=cfg.get('full', False), rho=rho)
+    if cfg.get('R0'):
+        kw['initial_recovereds'] = list(r.R0)
+        if not cfg.get('default_ic') and eng.mode == 'sym':
+            # a consistent request: the rounded number of infected nodes fits beside the recovered ones
+            eng.assume(LE(N * rho, N - len(r.R0) + Fraction(1, 4)))
     if cfg.get('default_ic'):
         kw.pop('rho')
-        if cfg.get('R0'):
-            kw['initial_recovereds'] = list(r.R0)
     n0 = len(eng.log)
     ret = simruns.check_shape(h, r, call_with_rates(h, r, f, kw))
     if ret is None:
